@@ -2,7 +2,7 @@
 # (re)builds extractor output, the implementation harness (against a copy of the
 # current working tree of $VERIF_REPO) and the Lean library + driver.
 set -e
-V=/verif
+V=$(dirname "$(readlink -f "$0")")
 REPO=${VERIF_REPO:-/repo}
 export GOFLAGS=-mod=mod GOPROXY=off GOSUMDB=off GOTOOLCHAIN=local
 mkdir -p $V/.build
